@@ -43,7 +43,8 @@ UNPROVED = [
     "threshold, false-alarm < 1e-14 per test; also end-to-end through LogisticRegression.fit)",
 ]
 RULE = ("configurations (epsilon in [1e-2,20], C in [1e-2,1e2], data_norm, d in 1..6, n in 10..200, 2..4 classes, both "
-        "intercept settings, Gaussian rows scaled so that a fraction exceeds data_norm) from the seed; each is fitted once "
+        "intercept settings spelled as bool and as numpy.bool_, Gaussian rows scaled so that a fraction exceeds data_norm or "
+        "rows with every coordinate inside data_norm but norm above it) from the seed; each is fitted once "
         "with scripted noise; non-trivial when at least one row was clipped; distinct by the configuration tuple; the "
         "fallback branch (eps' <= 0) is forced in a third of the cases by choosing C large")
 
@@ -91,8 +92,9 @@ def observe_fit(cfg, X, y, script_seed, fast_rng=None):
             warnings.simplefilter("ignore")
             with seams.fresh_default_accountant():
                 with seams.interpose(force=force) as calls:
+                    ic = np.bool_(cfg["intercept"]) if cfg.get("ic_kind") == "np.bool_" else bool(cfg["intercept"])
                     clf = dp.models.LogisticRegression(epsilon=cfg["eps"], data_norm=cfg["norm"], C=cfg["C"],
-                                                       fit_intercept=cfg["intercept"], max_iter=cfg.get("max_iter", 3))
+                                                       fit_intercept=ic, max_iter=cfg.get("max_iter", 3))
                     clf.fit(X, y)
     finally:
         so.fmin_l_bfgs_b = prev
@@ -109,6 +111,8 @@ def make_data(cfg, dseed):
     target = np.array([cfg["norm"] * r.choice([r.uniform(0.05, 0.99), r.uniform(0.05, 0.99), 1.0, r.uniform(1.0, 5.0)])
                        for _ in range(n)])
     X = X / norms[:, None] * target[:, None]
+    if cfg.get("data") == "coords-inside":
+        X = np.array([[cfg["norm"] * r.uniform(-0.9, 0.9) for _ in range(d)] for _ in range(n)])
     y = np.array([i % k for i in range(n)])
     perm = list(range(n))
     r.shuffle(perm)
@@ -125,7 +129,11 @@ def gen_cfg(r):
         C = r.choice([1.0, r.loguniform(1e-2, 1e2)])
     return {"eps": eps, "C": C, "norm": r.choice([1.0, r.loguniform(0.1, 10.0)]), "d": r.randint(1, 6),
             "n": r.randint(10, 200), "classes": r.randint(2, 4), "intercept": r.chance(0.5), "max_iter": r.choice([1, 3, 10]),
-            "rs": r.chance(0.4)}
+            "rs": r.chance(0.4),
+            # every spelling of the flag sklearn's parameter validation accepts (it refuses the ints 0/1)
+            "ic_kind": r.choice(["bool", "np.bool_"]),
+            # "coords-inside": every coordinate within data_norm, yet many rows above it (d >= 2)
+            "data": r.choice(["scaled", "scaled", "coords-inside"])}
 
 
 def close(a, b, rel, abs_=0.0):
@@ -154,7 +162,15 @@ def extract(call, opt, dim, n):
     w2 = np.array([0.3 - 0.7 * ((j * 5) % 3) for j in range(dim)])
     v2, g2, m2 = diff(w2)
     mag = max(m0, m1, m2, 1.0) + float(np.max(np.abs(g0))) + abs(delta) * float(np.max(np.abs(w1)))
-    return {"b": b, "delta": delta, "v0": v0, "w1": w1, "w2": w2, "v2": v2, "g2": g2, "mag": mag}
+    # the perturbation is fixed at release: every probe point once more, in another order, must give the same result
+    repeat = None
+    for w, (v_, g_) in ((w2, (v2, g2)), (z, (v0, g0)), (w1, (v1, g1)), (w2, (v2, g2))):
+        vv, gg, _ = diff(w)
+        if not (vv == v_ and np.array_equal(gg, g_)):
+            repeat = (f"noisy − clean at w={w.tolist()} was ({v_!r}, {g_.tolist()}) on the first evaluation and ({vv!r}, {gg.tolist()}) "
+                      f"on a later one")
+            break
+    return {"b": b, "delta": delta, "v0": v0, "w1": w1, "w2": w2, "v2": v2, "g2": g2, "mag": mag, "repeat": repeat}
 
 
 # ------------------------------------------------------------------------------------------------ direct checks (S)
@@ -198,6 +214,8 @@ def direct(ctx, cfg, dseed, X, y, calls, opts, scripts):
                                         f"{float(l2)!r}, 1/(C n) = {1.0 / (cfg['C'] * n)!r}")
         ex = extract(c, o, dim, n)
         obs.append((ex, o))
+        if ex["repeat"]:
+            return viol("perturbation-not-fixed", f"problem {i}: {ex['repeat']}")
         if sc is None:
             continue
         # scale actually used = |b| / sum of the unit gammas
@@ -411,6 +429,10 @@ FIXED = [
     {"eps": 0.05, "C": 50.0, "norm": 1.0, "d": 6, "n": 200, "classes": 4, "intercept": True, "max_iter": 1},
     {"eps": 2.0, "C": 0.5, "norm": 1.5, "d": 4, "n": 60, "classes": 3, "intercept": True, "max_iter": 3, "rs": True},
     {"eps": 0.1, "C": 100.0, "norm": 2.0, "d": 2, "n": 20, "classes": 2, "intercept": False, "max_iter": 3, "rs": True},
+    {"eps": 1.0, "C": 1.0, "norm": 1.0, "d": 4, "n": 40, "classes": 2, "intercept": True, "max_iter": 3, "ic_kind": "np.bool_",
+     "data": "coords-inside"},
+    {"eps": 0.5, "C": 3.0, "norm": 0.7, "d": 3, "n": 30, "classes": 3, "intercept": False, "max_iter": 3, "ic_kind": "np.bool_",
+     "data": "coords-inside"},
 ]
 
 
@@ -437,7 +459,7 @@ def check(ctx):
         pend.append((cfg, dseed, X, calls, opts, scripts, obs, len(all_lines), len(lines), rows))
         all_lines += lines
     if cfgs:
-        cfg, dseed = cfgs[5] if len(cfgs) > 5 else cfgs[0]
+        cfg, dseed = cfgs[7] if len(cfgs) > 7 else cfgs[0]
         ctx.sample({"configuration": cfg, "data_seed": dseed})
     outs = leanio.run_driver("Samplers", all_lines) if all_lines else []
     for cfg, dseed, X, calls, opts, scripts, obs, a, ln, rows in pend:
